@@ -406,17 +406,16 @@ def prod_model_ops(rng, tier):
         # expensive: full-size scalars, ~15 s each in the extracted model (run in parallel by the driver)
         big = rng.getrandbits(256)
         if name == "secp256k1":
-            exp = [("multiply", Q, n - 1), ("multiply", Gu, 2 ** 256 - 1), ("multiply", R, big), ("raw_mul", None, rng.getrandbits(256)),
-                   ("raw_mul", None, -1)]
+            exp = [("multiply", Q, n - 1), ("multiply", Gu, 2 ** 256 - 1), ("raw_mul", None, rng.getrandbits(256))]
             if tier == "thorough":
-                exp += [("multiply", Q, -1), ("multiply", G, n - 2), ("gmul", None, big), ("gmul", None, -5), ("raw_mul", None, n - 1),
+                exp += [("multiply", R, big), ("raw_mul", None, -1), ("multiply", Q, -1), ("multiply", G, n - 2), ("gmul", None, big), ("gmul", None, -5), ("raw_mul", None, n - 1),
                         ("raw_mul", None, 2 ** 256 - 1), ("shared", Q, big), ("mk_gen", None, 2 ** 255 + 12345)]
                 exp += [("multiply", R, rng.getrandbits(256) - 2 ** 255) for _ in range(10)]
                 exp += [("raw_mul", None, rng.getrandbits(300)) for _ in range(6)]
         elif name == "secp256r1":
-            exp = [("multiply", Q, -1), ("multiply", R, 2 ** 256 - 1), ("raw_mul", None, big)]
+            exp = [("multiply", Q, -1), ("raw_mul", None, big)]
             if tier == "thorough":
-                exp += [("multiply", Q, n - 1), ("gmul", None, big), ("raw_mul", None, -1), ("shared", Q, big)]
+                exp += [("multiply", R, 2 ** 256 - 1), ("multiply", Q, n - 1), ("gmul", None, big), ("raw_mul", None, -1), ("shared", Q, big)]
                 exp += [("multiply", R, rng.getrandbits(256) - 2 ** 255) for _ in range(8)]
                 exp += [("raw_mul", None, rng.getrandbits(300)) for _ in range(4)]
         else:
